@@ -84,6 +84,15 @@ CLAIMS = {
               "values must be the specified ones. Bounded-exhaustive over values x spellings x layouts is the right "
               "level: a misclassified spelling or a wrongly decoded escape affects only the values it concerns.",
               "DESIGN.md section 6 C12", "TLA+ lexer machine + lexical reference; TLC invariants; every enumerated text lexed and parsed for real"),
+    "C13": _c("model_checking",
+              "MC_Err.tla injects one fault at a known token of a well-typed expression - an unknown name, a type "
+              "mismatch at one operator (compile time), or an operation that fails for the given environment while the "
+              "reference semantics evaluates everything else successfully (run time) - and Grammar.tla computes the "
+              "(line, column) of the fault's anchor token under a one-line layout, an irregular multi-line layout and "
+              "behind multi-byte runes; MC_Front.tla gives every token sequence the reference grammar rejects at a token. "
+              "TLC enumerates trees x leaves x faults x environments; the real Compile / Run / Parse error must be a "
+              "*file.Error naming exactly that position, inside the source, with the named source line as snippet.",
+              "DESIGN.md section 6 C13", "TLA+ fault injection with token positions computed by the specification; every case compiled/run for real"),
     "C14": _c("model_checking",
               "Prim!Arith is the promotion rule of the property; TLC enumerates every pair of the 12 numeric kinds x every "
               "arithmetic/comparison operator x 1-3 values per kind (extrema included), plus nested random combinations; the "
